@@ -288,7 +288,15 @@ func runC20(c c20Case) Result {
 			}
 			dl := time.Now().Add(10 * time.Second)
 			for time.Now().Before(dl) {
-				if sc := ts.scrape(5 * time.Second); sc.HasGauge && int(sc.InFlight) >= st.Held {
+				sc := ts.scrape(10 * time.Second)
+				if sc.Err != "" || sc.Status != 200 {
+					// the metrics endpoint must stay available on its own address whatever the prover address is busy with
+					for _, h := range held {
+						h.close()
+					}
+					return bad(c.Mode+"/held", "metrics:unavailable-under-load", "step %d: with %d requests in flight on the prover address a scrape of the metrics address failed: status %d err %q after %v", si, st.Held, sc.Status, sc.Err, sc.Elapsed)
+				}
+				if sc.HasGauge && int(sc.InFlight) >= st.Held {
 					break
 				}
 				time.Sleep(5 * time.Millisecond)
